@@ -16,35 +16,48 @@ Supported C++ subset (everything else is a hard error, never silently skipped):
 
 WHOLE IMPLEMENTATION FUNCTIONS (tools/gen_impl.py + gen_impl_parse.py, run from main() below)
 ---------------------------------------------------------------------------------------------
-Every static function of the Impl classes of detail/so2.hpp, c1.hpp, tn.hpp, se2.hpp, so3.hpp, se3.hpp is
-transliterated statement by statement into `SmoothModel/Gen/ImplSrc.lean` (namespaces ImplSrc.SO2 …,
-over `[Scalar α]`; TnImpl<N> for a symbolic dimension n), and SmoothProps/SrcTieImpl{,C01..C05}.lean prove
-`ImplSrc.G.f = G.f` for the hand-written model (78 theorems: `rfl`, or entry by entry `fin_cases`+`rfl`
-after unfolding memoM/memoV and rewriting callees by their own ties; α abstract, so no arithmetic law is
-used and the expression trees, including operation order, coincide).
-  TRANSLATED (69): SO2 C1: setIdentity matrix composition inverse log exp hat vee;  Tn: the same + ad;
+Every static function of the Impl classes of detail/so2.hpp, c1.hpp, tn.hpp, se2.hpp, so3.hpp, se3.hpp,
+galilei.hpp, se_k_3.hpp is transliterated statement by statement into `SmoothModel/Gen/ImplSrc.lean` (namespaces
+ImplSrc.SO2 …, over `[Scalar α]`; TnImpl<N> and SE_K_3Impl<K> for a SYMBOLIC dimension n / k), and
+SmoothProps/SrcTieImpl{,C01..C05}.lean prove `ImplSrc.G.f = G.f` for the hand-written model (`rfl`, or entry by
+entry `fin_cases`+`rfl` after unfolding memoM/memoV and rewriting callees by their own ties; the loops over K of
+SE_K(3) by induction over the iterations with index arithmetic only; α abstract, so no arithmetic law is used
+and the expression trees, including operation order, coincide).
+  TRANSLATED (98): SO2 C1: setIdentity matrix composition inverse log exp hat vee;  Tn: the same + ad;
     SE2: setIdentity matrix composition inverse log Ad exp hat vee ad dr_exp dr_expinv d2r_exp d2r_expinv;
     SO3: calc_S1 calc_S2 calc_S1inv setIdentity matrix composition inverse log Ad exp hat vee ad dr_exp
          dr_expinv d2r_exp d2r_expinv;
-    SE3: setIdentity matrix composition inverse log Ad exp hat vee ad calculate_q dr_exp dr_expinv.
+    SE3: setIdentity matrix composition inverse log Ad exp hat vee ad calculate_q calculate_Q_dQ dr_exp dr_expinv
+         d2r_exp d2r_expinv (calculate_Q_dQ whole: its 3x18 table is ALSO re-emitted by gen_dq.py for the theorem
+         C05.dQ_is_derivative_of_Q; the two translations are tied to each other through the model);
+    Galilei: setIdentity matrix composition inverse log Ad exp hat vee ad calculate_r dr_exp dr_expinv;
+    SE_K(3) (every K): setIdentity matrix composition inverse log Ad exp hat vee ad calculate_q dr_exp dr_expinv;
+    + the constants RepSize, Dim, Dof, IsCommutative of the eight classes (`ImplSrc.consts_*`).
   NOT TRANSLATED (table EXCLUDED of gen_impl.py, repeated in the header of the generated file and as
-    `ImplSrc.notTranslated`): setRandom of every class (Eigen's RNG); SE3 calculate_Q_dQ (its 3x18 table
-    is tied by gen_dq.py), SE3 d2r_exp / d2r_expinv (use calculate_Q_dQ and d_matrix_product).
+    `ImplSrc.notTranslated`): setRandom of every class (Eigen's RNG).  OPAQUE CALLEE: the free template
+    `d_matrix_product` (detail/derivatives_impl.hpp) called by SE3 d2r_expinv is mapped to the hand model
+    `Derivs.d_matrix_product`; its text is pinned by tools/gen_base.py and the model is tied by execution (T1).
     The list of translated functions is itself tied (`SrcTieImpl.manifest_eq`): a function added to or
     removed from a class breaks it.
   C++ SUBSET: declarations `[const] T x [= e]`, `T x{{..},{..}}`, `Eigen::Map<const Quaternion> q(v.data())`,
-    `const auto [a, b] = <lambda>()`, local `using X = T;`; assignments `=  +=  -=  *=` (with .noalias()) to
+    `const auto [a, b] = <lambda>()`, `[const] auto [A, B] = f(x)` for f returning std::pair (`return {A, B};`),
+    local `using X = T;`; assignments `=  +=  -=  *=` (with .noalias()) to
     whole objects, coefficients `x(i) x(i,j) x[i]`, blocks `.head<k>() .tail<k>() .segment<k>(o)
     .topLeftCorner<r,c>() (all four corners) .block<r,c>(i,j) .middleCols<k>(j) .col(j)`; comma initialiser;
     `.setZero() .setIdentity()`; calls of other Impl functions (one output parameter) and of value-returning
-    ones; `if (a < b) { x op= …; }`; `for (auto i = 0u; i < N; ++i)` (unrolled); immediately invoked
+    ones; `if (a < b) { x op= …; }`; `for (auto i = 0u; i < N; ++i)` (N a literal: unrolled; N the template
+    parameter K: kept as `EigenSem.forLoop K body init`, the body must assign exactly one outer variable);
+    `Eigen::Ref<[const] T> x = <block>` (a live VIEW, not a copy); `const double t = <coefficient>` (noted in the
+    generated header: exact only for Scalar ∈ {float, double}); immediately invoked
     lambdas `[&]() -> Scalar | std::array<Scalar,k> { const Scalar…; if/else; return …; }()`; `return e;`.
     Expressions: + - * / unary -, coefficient access `.x() .y() .z() .w()`, `.squaredNorm() .dot() .row(i).transpose()
     .transpose()`, `::Identity() ::Zero()`, quaternion `* .inverse() .conjugate() .toRotationMatrix() .coeffs()`.
     HARD ERRORS (never skipped): any other statement, member function, operator or type; integer division
     of literals; a bare floating literal in arithmetic (C++ would compute in double); reading an entry of a
     declared-but-unassigned object, or leaving an entry of an output unassigned (definite-assignment
-    analysis on static indices); first assignment inside a conditional; assignment to a const / input;
+    analysis: cell sets for static sizes, row intervals with linear end points for vectors of symbolic size,
+    `[3i, 3i+3)` for i < K generalised to `[0, 3K)`); a block outside of its object (decided for linear index
+    forms under 0 ≤ i < K); first assignment inside a conditional; assignment to a const / input;
     overloaded or recursive functions; a class member that is not a constant, a using or a static function.
   TRUSTED TABLES (the meaning given to Eigen 3.4 constructs; SmoothModel/EigenSem.lean documents the Eigen
     source lines, Lin.lean has the dense helpers):
@@ -68,6 +81,15 @@ used and the expression trees, including operation order, coincide).
     depends on the scalar type and instruction set (packet path left-to-right, scalar path x0+(x1+x2)) and
     Eigen has SIMD quaternion products; these rounding-level differences are the business of the execution
     tie T1 (ulp comparison), not of this syntactic tie.
+
+THE GENERIC LAYER (tools/gen_base.py + gen_base_pins.py, run from main() below)
+-------------------------------------------------------------------------------
+include/smooth/lie_group_base.hpp (class LieGroupBase<Derived>) and include/smooth/detail/derivatives_impl.hpp:
+every member is TRANSLATED into a term over an abstract record of implementation functions
+(`SmoothModel/Gen/BaseSrc.lean`, meanings in SmoothModel/BaseSem.lean) and/or PINNED TEXTUALLY (normalised token
+sequence compared with the expected sequence of gen_base_pins.py — in-place writes through derived().coeffs(), the
+aliasing-protecting temporary of operator*=, signatures, qualifiers; d_matrix_product and d2_fog).  Ties
+`SrcTieImpl.base_*`, `derivs_*`.  See the doc-comment of gen_base.py.
 """
 import os, re, sys
 sys.path.insert(0, os.path.dirname(os.path.abspath(__file__)))
@@ -402,6 +424,15 @@ def main():
         print('gen_src: cannot translate the current source (implementation functions):', e)
         sys.exit(1)
     write_if_changed(outi, txti)
+    # the generic layer: LieGroupBase members and derivatives_impl.hpp (tools/gen_base.py) -> SmoothModel/Gen/BaseSrc.lean
+    import gen_base
+    outb = sys.argv[4] if len(sys.argv) > 4 else os.path.join(os.path.dirname(os.path.abspath(outp)), 'BaseSrc.lean')
+    try:
+        txtb = gen_base.generate(repo)[0]
+    except gen_base.TrErr as e:
+        print('gen_src: cannot translate the current source (generic layer lie_group_base.hpp / derivatives_impl.hpp):', e)
+        sys.exit(1)
+    write_if_changed(outb, txtb)
 
 
 def write_if_changed(outp, txt):
